@@ -396,6 +396,11 @@ def one_fault(ctx, case, fault, origin, base_steps=None):
             for d in k.deliveries[-3000:]:
                 recent[(d[1], d[2], d[3])] = recent.get((d[1], d[2], d[3]), 0) + 1
             top = sorted(recent.items(), key=lambda kv: -kv[1])[:3]
+            if len(recent) > 4 or any(t[1] == "WakeupMessage" for t in recent):
+                # many different exchanges, or timers among them: slow rather than circular - stays inconclusive
+                ctx.feature("budget-exceeded")
+                ctx.case([case["seed"], fault], False, ())
+                return
             ctx.clause("bounded-time")
             ctx.case([case["seed"], fault], True, feats | {"livelock-after-fault"})
             ctx.violation("bounded-time", {"case": case, "fault": fault, "detail": {"kind": fault["kind"], "livelock": True}},
